@@ -423,7 +423,7 @@ class Gen:
                     kindmap = {"ret": "ForbiddenCodeAfterReturnDeprecated",
                                "break": "ForbiddenCodeAfterBreakDeprecated",
                                "continue": "ForbiddenCodeAfterContinueDeprecated"}
-                    self.injected = {"rule": "R21", "kind": kindmap[term[0]]}
+                    self.injected = {"rule": "R21", "kind": kindmap[term[0]], "block": kind, "after": term[0]}
                     out.append(["let", self.ident("late"), 0, ["noty"], self.expr(P("i32"), 0)])
         if kind != "fn":
             self.scopes.pop()
@@ -708,12 +708,29 @@ def gen_fault(seed, rule=None, variant=None):
             if n == 0:
                 continue
             k = rr.randrange(n)
+            if ru == "R21" and variant is not None:
+                # look through the sites of this program for the wanted (body kind, terminator)
+                want21 = [("ifloop", "ret"), ("if", "ret"), ("loop", "ret"), ("ifloop", "break"), ("loop", "continue"),
+                          ("ifloop", "continue")][variant % 6]
+                for kk in range(n):
+                    g = Gen(sd)
+                    g.inject = (ru, kk)
+                    g.program()
+                    if g.injected is not None and (g.injected.get("block"), g.injected.get("after")) == want21:
+                        k = kk
+                        break
             g = Gen(sd)
             g.inject = (ru, k)
             g.force_variant = variant
             p = g.program()
             if g.variant_missed and variant is not None and attempt < 11:
                 continue
+            if ru == "R21" and variant is not None and attempt < 11 and g.injected is not None:
+                # code after return / break / continue, in each kind of body in turn
+                want = [("ifloop", "ret"), ("if", "ret"), ("loop", "ret"), ("ifloop", "break"), ("loop", "continue"),
+                        ("ifloop", "continue")][variant % 6]
+                if (g.injected.get("block"), g.injected.get("after")) != want:
+                    continue
             if g.injected is not None:
                 meta = {"stream": "fault", "seed": sd, "site": k, "sites": n}
                 meta.update(g.injected)
